@@ -94,7 +94,7 @@ def run(ctx):
     ctx.trusted += ["numpy.linalg (independent residual of the optimality system, singular values for conditioning)",
                     "scipy.optimize (the wrapped optimisers themselves; only the wrapping is checked)",
                     "scipy.sparse.linalg.inv/spsolve (PCGLS preconditioner solve; the model uses an exact inverse with a checked certificate)"]
-    ctx.assumptions += ["float iterates of CGLS/PCGLS/FISTA/LM are compared with the exact rational iterates to 1e-9 (rel+abs) on small well-conditioned problems",
+    ctx.assumptions += ["float iterates of CGLS/PCGLS/FISTA/LM are compared with the exact rational iterates to 1e-9 (rel+abs) on small well-conditioned problems (CG: max(1e-9, 1e-13*kappa^4), kappa <= 20 = conditioning of the (preconditioned) operator: float CG loses conjugacy)",
                         "norm comparisons are modelled on squared norms (sign cases of the tolerance explicit); an iteration-count difference is tolerated only when the stopping quantity is within 1e-6 (relative) of its threshold",
                         "LM: the initial damping nu = ||J^T r|| (a square root) is supplied to the model as the float the code computes"]
 
@@ -183,9 +183,18 @@ def cg_threshold_close(gamma_k, gamma0, tol):
     return abs(g - thr) <= 1e-6 * max(thr, 1e-300)
 
 
-def compare_cg(ctx, key, desc, out, solve_impl, on_refusal=None):
-    """solve_impl(maxit) -> (x, k).  Compares iteration count and every iterate."""
+def eff_cond(B):
+    sv = np.linalg.svd(B, compute_uv=False)
+    sv = sv[sv > 1e-9 * sv[0]]
+    return float(sv[0] / sv[-1])
+
+
+def compare_cg(ctx, key, desc, out, solve_impl, on_refusal=None, kappa=1.0):
+    """solve_impl(maxit) -> (x, k).  Compares iteration count and every iterate.
+    Float CG loses conjugacy with the conditioning kappa of the (preconditioned) operator: the iterate tolerance
+    is max(1e-9, 1e-13*kappa^4) (1e-9 up to kappa = 10; the generators keep kappa <= 20)."""
     tol = desc["tol"]
+    itol = max(TOL, 1e-13 * kappa ** 4)
     if out.startswith("err") or out == "bad-op":
         try:
             with quiet():
@@ -223,7 +232,8 @@ def compare_cg(ctx, key, desc, out, solve_impl, on_refusal=None):
     for j in range(kk + 1):
         with quiet():
             xj, _ = solve_impl(j)
-        if not vclose(xj, trace[j], TOL):
+        # at the step where exact arithmetic terminates (gamma = 0) float CG has not converged to working precision yet
+        if not vclose(xj, trace[j], 1e-6 if (j == k and gammas[k] == 0) else itol):
             ctx.disagree(key + ":iterate", {**desc, "j": j}, trace[j], np.asarray(xj).tolist(), f"iterate {j} differs")
             break
     return True, np.asarray(xi, dtype=float), ki, (k, flag, x, gammas)
@@ -285,7 +295,7 @@ def check_cgls(ctx, rs, sc, CGLS):
             op = Aop if form == "mat" else fun_form(Aop)
             solve = lambda k, op=op: CGLS(op, b.copy(), x0.copy(), k, tol, shift).solve()
             nd = len(ctx.disagreements)
-            r = compare_cg(ctx, key, desc, out_mat if form == "mat" else out_fun, solve)
+            r = compare_cg(ctx, key, desc, out_mat if form == "mat" else out_fun, solve, kappa=eff_cond(A))
             for dd in ctx.disagreements[nd:]:
                 # model and implementation differ: run the property's own oracle at this input, to convergence
                 converged_oracle(ctx, dd["key"], desc, A, b, x0, shift,
@@ -393,7 +403,12 @@ def check_pcgls(ctx, rs, sc, PCGLS, cuqi):
         A = gen_matrix(rs, m, n, sparse)
         b = rs.randint(-5, 6, size=m).astype(float)
         x0 = start_vector(rs, n)
-        P = gen_precond(rs, n, ["diag", "tri", "full"][i % 3])
+        for _try in range(30):                    # keep the preconditioned operator well-conditioned too
+            P = gen_precond(rs, n, ["diag", "tri", "full"][i % 3])
+            if eff_cond(A @ np.linalg.inv(P)) <= 20:
+                break
+        else:
+            P = np.eye(n) * 2.0
         shift = float(rs.choice([0.0, 0.0, 0.0, 0.5, 1.0]))
         mode = ["converge", "converge", "truncate"][i % 3]
         tol, maxit = (float(rs.choice([1e-8, 1e-10])), 60) if mode == "converge" else (1e-10, int(rs.randint(0, n + 1)))
@@ -425,7 +440,8 @@ def check_pcgls(ctx, rs, sc, PCGLS, cuqi):
                     ctx.fail(f"PCGLS:{form}:dim{n if n == 1 else 'N'}:raises", desc, "solution of the normal equations", repr(e)[:120],
                              "PCGLS raises on a well-posed problem")
                 nd = len(ctx.disagreements)
-                r = compare_cg(ctx, key, desc, outs[2 * idx + (0 if form == "mat" else 1)], solve, refused)
+                r = compare_cg(ctx, key, desc, outs[2 * idx + (0 if form == "mat" else 1)], solve, refused,
+                               kappa=eff_cond(A @ np.linalg.inv(P)))
                 for dd in ctx.disagreements[nd:]:
                     converged_oracle(ctx, dd["key"], desc, A, b, x0, 0.0,
                                      lambda k, t, op=op: PCGLS(op, b.copy(), x0.copy(), Psp, k, t, shift).solve())
@@ -494,7 +510,7 @@ def check_fista(ctx, rs, sc, FISTA, ProjectNonnegative, ProjectBox, ProximalL1):
         e = math.floor(math.log2(1.0 / L)) - int(rs.randint(0, 3))
         t = 2.0 ** e if rs.rand() < 0.8 else 2.0 ** e * 1.25 if 2.0 ** e * 1.25 < 1 / L else 2.0 ** e
         kind, tok, proxf, par = prox_token(rs, n, ProjectNonnegative, ProjectBox, ProximalL1, i)
-        adaptive = bool(i % 2)
+        adaptive = bool(rs.randint(0, 2))
         maxit = int(rs.choice([0, 1, 2, 5, 9, 14]))
         abstol = float(rs.choice([1e-14, 1e-14, 1e-3, 0.25, 2.0]))
         meta.append((A, b, x0, t, kind, tok, proxf, par, adaptive, maxit, abstol, sparse))
@@ -547,7 +563,7 @@ def check_fista(ctx, rs, sc, FISTA, ProjectNonnegative, ProjectBox, ProximalL1):
         L = np.linalg.norm(A, 2) ** 2
         t = float(rs.choice([0.5, 0.9, 0.99])) / L
         kind, tok, proxf, par = prox_token(rs, n, ProjectNonnegative, ProjectBox, ProximalL1, i)
-        adaptive = bool(i % 2)
+        adaptive = bool(rs.randint(0, 2))
         name = "FISTA" if adaptive else "ISTA"
         desc = {"solver": name, "A": A.tolist(), "b": b.tolist(), "x0": x0.tolist(), "stepsize": t, "prox": tok,
                 "maxit": 20000, "abstol": 1e-11, "mode": "converge"}
